@@ -89,7 +89,13 @@ func VerifC06CommitEqualsAllocate() {
 // Realloc (that changed something), Release or Commit is refused.
 func VerifC06StaleOffer() {
 	w := verifLayout(verifPickLayout())
-	op := verifChoice("op", 4)
+	var enabled []int
+	for k := 0; k < 4; k++ {
+		if verifParam("staleOpMask", 15)&(1<<uint(k)) != 0 {
+			enabled = append(enabled, k)
+		}
+	}
+	op := enabled[verifChoice("op", len(enabled))]
 	if op == 1 || op == 2 {
 		// re-allocation / release need an existing allocation to act on
 		w.build(verifParam("prior", 1))
